@@ -53,7 +53,7 @@ class Prop:
     id = "C24"
     level = "exploration"
     engine = "VT"
-    quick_runs = 50000
+    quick_runs = 100000
     thorough_runs = 2000000
     rule = ("seeded histories of subscribe/unsubscribe/connect/disconnect calls at virtual instants chosen so that no call ties with a source "
             "event, over cold, hot and synchronous sources, for publish, replay(buffer_size, window), publish_value, multicast(subject), "
